@@ -294,3 +294,7 @@ def guarded(rep, rule_fn, *args, **kwargs) -> None:
         rule_fn(*args, **kwargs)
     except AnalysisError as e:
         rep.error(str(e))
+    except RecursionError:
+        raise
+    except Exception as e:  # a defect of the rule itself: an analysis error of this run (exit 2), the other rules are still evaluated
+        rep.error(f"internal error in {getattr(rule_fn, '__name__', 'rule')}: {type(e).__name__}: {e}")
